@@ -176,4 +176,24 @@ CHECKS["C07"] = {
             "dh2_flow_dmom equal to the Jacobian blocks of the traced flow for both signs of t.",
     "note": "reals for floats; dimension 2; trig identities by sympy; dense metrics whose eigendecomposition comes from numpy eigh are represented by the eigendecomposed class.",
 }
+CHECKS["C08"] = {
+    "engine": "symla",
+    "technique": "contract-based verification by exact symbolic execution of the real sample_momentum methods and momentum transitions with a contract stub for the generator (symbolic standard-normal draws)",
+    "design_ref": "DESIGN.md section 7 C08",
+    "text": "sample_momentum of every system class and metric type returns exactly L z for the stub generator's symbolic draws z with L L^T == metric(position) (P M P^T and J M^-1 mom == 0 for constrained systems); "
+            "independent refresh assigns one such draw; partial refresh returns a mom + c n with a^2 + c^2 == 1 for symbolic c in (0,1), a fresh draw for c == 1 or missing momentum, no change and no draw for c == 0; "
+            "the constructor rejects coefficients outside [0,1].",
+    "note": "Gaussian-law invariance follows from the proved linear-algebra postconditions by the standard facts that L z ~ N(0, L L^T) and that a p + c n with independent N(0,M) inputs and a^2+c^2=1 is N(0,M) (cited, A10); reals for floats; dimension 2; "
+            "the reassigned-coefficient history is covered by the native replay and an explicit obligation.",
+}
+CHECKS["C03"] = {
+    "engine": "symla+pyvc",
+    "technique": "contract-based verification: exact symplecticity postconditions (J^T Omega J == Omega) on the Jacobians of the real component flows traced symbolically, structural contracts (composition of flows, adjoint pairs, RATTLE form) on the real integrator steps, bounded native finite-difference check for implicit and constrained steps",
+    "design_ref": "DESIGN.md section 7 C03",
+    "text": "Every explicit component flow (h1_flow; Euclidean and Gaussian h2_flow; every metric type; symbolic time; uninterpreted smooth target) has an exactly symplectic Jacobian; explicit integrator steps are proved to be compositions of exactly these flows "
+            "(obligations shared with C06) and whole leapfrog / BCSS steps of the real integrator are traced on a symbolic-coefficient cubic target family; implicit sub-steps are proved to be the generalised-leapfrog / implicit-midpoint equations and their adjoints "
+            "(shared with C02), constrained steps to have the RATTLE form with closed-form cotangent projection (shared with C04).",
+    "note": "that generalised leapfrog, implicit midpoint and RATTLE compositions are symplectic is a cited theorem (A9), not proved; for those steps the check adds a BOUNDED native finite-difference Jacobian test (labelled bounded, not counted as proved). "
+            "Whole-step traces use one polynomial target family (bounded in the function class). Reals for floats; dimension 2.",
+}
 NOT_APPLICABLE = {}
